@@ -613,6 +613,16 @@ def l_int_from_bytes(I, args, kw, node):
     return be_value(I.ctx, s, order)
 
 
+_ISSPACE = z3.Function("str.isspace", z3.StringSort(), z3.BoolSort())
+
+
+def str_isspace_term(t):
+    """str.isspace as an uninterpreted predicate of the string (same string, same answer)"""
+    if isinstance(t, str):
+        return t.isspace()
+    return _ISSPACE(t)
+
+
 def l_re_sub(I, args, kw, node):
     """re.sub(pattern, b"", s) for an end-anchored pattern over a few literal bytes (strip a suffix): the number of bytes
     removed depends only on the classes of the last few bytes; it is tabulated by running CPython's own re.sub on one
